@@ -98,6 +98,9 @@ def t_range(tr, ty, name, dims, storage, g):
 @model("<Range as Iterator>::next", doc="Range<usize>::next")
 def m_range_next(tr, c):
     r = self_loc(tr, c.args[0])
+    if r.node.kind == "struct" and r.node.tag == "BRange":
+        import mvmodels
+        return mvmodels.m_brange_next(tr, c)
     d = c.dest()
     n = d.node
     st, en = tr.lv(Loc(r.node.f("start"), r.idxs)), tr.lv(Loc(r.node.f("end"), r.idxs))
